@@ -4,7 +4,7 @@ CONSTANTS
   Vals = {"a"}
   MaxDepth = 3
   PosVals <- PosNone
-  Thens = {"none", "assign", "export", "ro"}
+  Thens = {"none", "assign", "ro"}
 INVARIANT TypeOK
 INVARIANT ProjectionFaithful
 INVARIANT EnvExact
